@@ -55,6 +55,8 @@ pub const KINDS: &[&str] = &[
     "cw_twin",         // 48 (identical damage - same degrees, same values - in several blocks: identical syndromes)
     "snd_foreign_ec",  // 49 (EC part as a plausible non-conforming encoder writes it: valid RS words in the wrong places)
     "mod_mimic",       // 50 (whole data rows / columns painted like the fixed pattern: solid or clock-like)
+    "geo_frame",       // 51 (the symbol embedded in a frame of light / dark / alternating modules: a captured quiet zone)
+    "cw_foreign",      // 52 (in-radius errors whose syndromes obey ANOTHER block's recurrence on a chosen set of rows)
 ];
 
 pub fn kind_id(name: &str) -> u8 {
@@ -85,6 +87,9 @@ pub enum Op {
     GeoColDrop { c: u32 },
     GeoColDup { c: u32 },
     GeoWidth { w: u32 },
+    /// the array embedded in a frame of `n` modules on every side (fill 0 = light, 1 = dark, 2 = alternating):
+    /// a captured quiet zone / a crop taken too wide
+    GeoFrame { n: u32, fill: u32 },
     /// widths that do not fit 32 bits (see `huge_width`)
     GeoWidthHuge { code: u32 },
     GeoEmpty,
@@ -330,6 +335,31 @@ pub fn apply_s4(faults: &[Fault], px: &mut Vec<bool>, width: &mut usize, fired: 
                     fired[fi] = true;
                 }
             }
+            Op::GeoFrame { n: fr, fill } => {
+                let fr = *fr as usize;
+                if rect && fr > 0 && w > 0 {
+                    let nw = w + 2 * fr;
+                    let nh = h + 2 * fr;
+                    let mut out = Vec::with_capacity(nw * nh);
+                    for r in 0..nh {
+                        for c in 0..nw {
+                            let inside = r >= fr && r < fr + h && c >= fr && c < fr + w;
+                            out.push(if inside {
+                                px[(r - fr) * w + (c - fr)]
+                            } else {
+                                match fill {
+                                    0 => false,
+                                    1 => true,
+                                    _ => (r + c) % 2 == 0,
+                                }
+                            });
+                        }
+                    }
+                    *px = out;
+                    *width = nw;
+                    fired[fi] = true;
+                }
+            }
             Op::GeoColDup { c } => {
                 let c = *c as usize;
                 if rect && c < w {
@@ -435,6 +465,7 @@ fn op_to_json(op: &Op) -> J {
         Op::GeoRowDup { r } => a("geo_row_dup", vec![J::i(*r as usize)]),
         Op::GeoColDrop { c } => a("geo_col_drop", vec![J::i(*c as usize)]),
         Op::GeoColDup { c } => a("geo_col_dup", vec![J::i(*c as usize)]),
+        Op::GeoFrame { n, fill } => a("geo_frame", vec![J::i(*n as usize), J::i(*fill as usize)]),
         Op::GeoWidth { w } => a("geo_width", vec![J::i(*w as usize)]),
         Op::GeoWidthHuge { code } => a("geo_width_huge", vec![J::i(*code as usize)]),
         Op::GeoEmpty => a("geo_empty", vec![]),
@@ -481,6 +512,7 @@ fn op_from_json(j: &J) -> Result<Op, String> {
         "geo_row_dup" => Op::GeoRowDup { r: n(1)? },
         "geo_col_drop" => Op::GeoColDrop { c: n(1)? },
         "geo_col_dup" => Op::GeoColDup { c: n(1)? },
+        "geo_frame" => Op::GeoFrame { n: n(1)?, fill: n(2)? },
         "geo_width" => Op::GeoWidth { w: n(1)? },
         "geo_width_huge" => Op::GeoWidthHuge { code: n(1)? },
         "geo_empty" => Op::GeoEmpty,
@@ -660,6 +692,7 @@ impl Trace {
                 Op::GeoRowDup { r } => h.u32s(&[12, *r]),
                 Op::GeoColDrop { c } => h.u32s(&[13, *c]),
                 Op::GeoColDup { c } => h.u32s(&[14, *c]),
+                Op::GeoFrame { n, fill } => h.u32s(&[114, *n, *fill]),
                 Op::GeoWidth { w } => h.u32s(&[15, *w]),
                 Op::GeoWidthHuge { code } => h.u32s(&[115, *code]),
                 Op::GeoEmpty => h.u32(16),
